@@ -30,7 +30,7 @@ iframe image img input ins isindex kbd keygen label legend li link listing main 
 option output p param picture plaintext portal pre progress q rb rp rt rtc ruby s samp script search section select shadow slot small source spacer span strike strong style sub summary sup svg
 table tbody td template textarea tfoot th thead time title tr track tt u ul var video wbr xmp mi mo mn ms mtext mglyph malignmark annotation-xml foreignobject desc g path circle rect use defs symbol
 animate set a:b`)
-	ElOdd = []string{"scr\u0130pt", "\u017fcript", "\u017ftyle", "t\u0130tle", "\u0130frame", "noscr\u0130pt", "a<b", "a\"b", "a=b", "x:y", "o:p", "isindex", "image", "keygen", "listing", "marquee", "template", "slot", "body", "html", "head", "frame", "applet", "bgsound", "basefont", "dialog", "menuitem", "rb", "rtc"}
+	ElOdd = []string{"x:style", "svg:script", "o:style", "xml:script", "scr\xffipt", "sty\xffle", "\xffscript", "script\xff", "scr\u0130pt", "\u017fcript", "\u017ftyle", "t\u0130tle", "\u0130frame", "noscr\u0130pt", "a<b", "a\"b", "a=b", "x:y", "o:p", "isindex", "image", "keygen", "listing", "marquee", "template", "slot", "body", "html", "head", "frame", "applet", "bgsound", "basefont", "dialog", "menuitem", "rb", "rtc"}
 )
 
 // AttrVocab: attribute names documents draw from in addition to the policy's own.
